@@ -341,6 +341,26 @@ def check(ctx):
                 if any(k.arg is None for k in c.keywords):
                     feats[fn.name]["**"] = "unknown"
     SYM = ("dialect", "delimiter", "quotechar", "escapechar", "doublequote", "**")
+    # every row the csv parser returns becomes an item: the row list is never filtered by the rows' contents (a row of
+    # empty fields is what an item with empty text values looks like in the file)
+    rdr = [c for _, c in calls_in(lr) if repo.dotted(lr, c.func) == "csv.reader"]
+    n_rowfilter = 0
+    for comp in [n for n in body_nodes(lr.node) if isinstance(n, (ast.ListComp, ast.GeneratorExp)) and any(g.ifs for g in n.generators)]:
+        g0 = comp.generators[0]
+        if not (isinstance(g0.iter, ast.Name) and isinstance(g0.target, ast.Name)):
+            continue
+        # is the iterated list the parsed rows, and is the element kept whole?
+        from ..dataflow import depends_on as _dep12
+        from_parser = any(d.value is not None and any(repo.dotted(lr, c.func) == "csv.reader" for c in ast.walk(d.value) if isinstance(c, ast.Call))
+                          for d in defs_reaching(lr, g0.iter.id, comp))
+        if not from_parser or norm(comp.elt) != g0.target.id:
+            continue
+        n_rowfilter += 1
+        cond = [norm(i) for i in g0.ifs]
+        ctx.ob("FWD-live", lr, f"parsed rows filtered by {cond}", comp, False,
+               f"rows returned by csv.reader are dropped when {cond}: an item whose values are all empty strings is written as a line of "
+               f"empty fields and does not come back", clause="The same holds for ListOfDicts with ... CSV (text values)")
+    ctx.note(f"content-based filters over the parsed CSV rows: {n_rowfilter} (csv.reader call sites: {len(rdr)})")
     wf, rf = feats.get("write_csv", {}), feats.get("read_csv", {})
     neutral = {None, "csv.QUOTE_MINIMAL", "csv.QUOTE_ALL"}   # the reader parses both alike
     ok = (len(feats) == 2 and all(wf.get(k) == rf.get(k) for k in SYM) and wf.get("delimiter") == "sep"
